@@ -81,6 +81,22 @@ def effects_named(p, name):
     return [e for e in p.effects if e.get("kind") == "call" and flow.fname(e["resolved"]) == name]
 
 
+def stores_of(p):
+    """all stores on path p as (target value, stored value, effect): stores through symbolic pointers and writes
+    through IndexMut::index_mut (element cells that were written)"""
+    out = []
+    for e in p.effects:
+        k = e.get("kind")
+        if k in ("store", "store_index"):
+            out.append((e["args"][0], e["args"][-1], e))
+        elif k == "index_mut" and e["cell"] in p.state.written:
+            v = p.state.cells[e["cell"]]
+            if v[0] == "app" and str(v[1]).startswith("upd:"):
+                continue  # only borrowed mutably by a callee (versioned), not assigned
+            out.append((("index", e["args"][0], e["args"][1]), v, e))
+    return out
+
+
 def cond_has(p, pred):
     return any(pred(deep_strip(e), v) for e, v in p.cond)
 
